@@ -108,14 +108,15 @@ class C18(Check):
     rule = ("archive = 1..4 folders x 1..3 members (C13 builder; chunk limit patched to 48..200 bytes so that members are decoded in several "
             "steps), optionally followed by an appended session with a symlink to a file, a symlink to a directory, an empty file and a directory "
             "x extractall / extract(T) with skipped members and skipped folders x output to a directory or a gated WriterFactory x opened "
-            "by path (worker threads, scheduled at thread start and at every factory create/write) or from a stream x handlers instantaneous, "
+            "by path (worker threads, scheduled at thread start and at every factory create/write; also with mp=True) or from a stream x preceded "
+            "or not by an earlier extraction of the same session (with its own callback, or with none) and reset() x handlers instantaneous, "
             "sleeping 1 ms, or one invocation parked until 30 ms after close() was entered. Oracle: first event pre, last event post; every "
             "start(name) is followed later by exactly one end(name, n) with int(n) = the member's size, names are member names, every delivered "
             "member has such a pair; the update byte counts sum to the sizes of the delivered non-empty members (a link's size is the length of "
             "its target text); when close() returns the log "
             "is complete and unchanged 100 ms later. Non-trivial: >= 2 folders or a skipped member, and a blocking/slow handler or a "
             "schedule with a switch; distinct by (archive shape, targets, output, open mode, handler mode, schedule).")
-    assumptions = ["one extraction per session", "handler delays total far below close()'s 1 s join timeout", "same scheduling granularity limits as C13"]
+    assumptions = ["handler delays total far below close()'s 1 s join timeout", "same scheduling granularity limits as C13"]
     budget_s = {"quick": 75, "thorough": 1500}
     sandbox_timeout = 120
 
@@ -129,6 +130,7 @@ class C18(Check):
                                       "out": st.sampled_from(["factory", "path"]), "open": st.sampled_from(["path", "path", "stream"]),
                                       "handler": st.sampled_from(["instant", "slow", "block", "block"]), "block_at": st.integers(0, 12),
                                       "chunk": st.sampled_from([48, 100, 200, None]), "sched": st.lists(st.integers(0, 3), max_size=30),
+                                      "prior": st.sampled_from([None, None, None, "cb", "nocb"]), "mp": st.sampled_from([False, False, False, True]),
                                       "extras": st.one_of(st.just([]), st.lists(st.sampled_from(["link", "linkdir", "empty", "dir"]), max_size=4, unique=True))})
 
     def examples(self, env):
@@ -145,7 +147,8 @@ class C18(Check):
                         i += 1
                         if env.mine(i):
                             yield {"arch": sp, "targets": targets, "out": out, "open": "path" if i % 3 else "stream", "handler": handler, "block_at": i % 7,
-                                   "chunk": 64, "sched": [i % 3, 1, 0, 2, 1], "extras": [[], ["link", "empty"], ["linkdir", "dir", "link"], ["empty", "dir"]][i % 4]}
+                                   "chunk": 64, "sched": [i % 3, 1, 0, 2, 1], "extras": [[], ["link", "empty"], ["linkdir", "dir", "link"], ["empty", "dir"]][i % 4],
+                                   "prior": [None, "cb", None, "nocb", None][i % 5], "mp": i % 7 == 3}
 
     def execute(self, case, env):
         out = Outcome()
@@ -175,6 +178,12 @@ class C18(Check):
         out.nontrivial = (nf >= 2 or skipped) and (case["handler"] != "instant" or (case["open"] == "path" and nf >= 2))
         out.sample = {"arch": case["arch"], "targets": T, "out": case["out"], "open": case["open"], "handler": case["handler"], "chunk": case["chunk"], "extras": extras}
         sig = {"out": case["out"], "open": case["open"], "handler": case["handler"], "targets": T is not None, "multi": nf >= 2, "extras": bool(extras)}
+        if case.get("prior"):
+            sig["prior"] = case["prior"]
+            out.label("prior:" + case["prior"])
+        if case.get("mp") and case["open"] == "path":
+            sig["mp"] = True
+            out.label("mp")
         cb = Recorder(block_at=case["block_at"] if case["handler"] == "block" else None, slow=0.001 if case["handler"] == "slow" else 0.0)
         import py7zr.py7zr as pp
 
@@ -209,8 +218,28 @@ class C18(Check):
                     if orig_thread is not None and threaded:
                         pp.Thread = GatedThread
                 src = apath if case["open"] == "path" else io.BytesIO(data)
-                z = py7zr.SevenZipFile(src, "r")
+                z = py7zr.SevenZipFile(src, "r", **({"mp": True} if (case.get("mp") and case["open"] == "path") else {}))
                 raised = None
+                # an earlier extraction in the same session, with a callback of its own or with none, then reset()
+                cb0 = None
+                prior = case.get("prior")
+                if prior in ("cb", "nocb"):
+                    try:
+                        if prior == "cb":
+                            cb0 = Recorder()
+                            z.extractall(factory=py7zr.io.NullIOFactory(), callback=cb0)
+                        else:
+                            z.extractall(factory=py7zr.io.NullIOFactory())
+                        z.reset()
+                    except Exception as e:
+                        cls, frame = arch.exc_sig(e)
+                        out.violate(dict(sig, kind="prior-extraction-raises", exc=cls, frame=frame), observed=repr(e)[:200], expected="first extraction succeeds")
+                        z.close()
+                        return out
+                    if cb0 is not None:
+                        time.sleep(0.05)
+                        with cb0.lock:
+                            n0 = len(cb0.log)
                 if sched is not None and threaded:
                     sched.start()
                 try:
@@ -263,6 +292,12 @@ class C18(Check):
                     out.violate(dict(sig, kind="events-after-close"), observed={"at_close": n1, "later": n2}, expected="all events delivered before close() returns")
                 self._judge(out, sig, log, model, delivered, names, folder_of)
                 out.count("events", len(log))
+                if cb0 is not None:
+                    with cb0.lock:
+                        log0 = list(cb0.log)
+                    if len(log0) != n0:
+                        out.violate(dict(sig, kind="earlier-callback-gets-later-events"), observed={"before": n0, "after": len(log0)}, expected="unchanged")
+                    self._judge(out, dict(sig, which="prior"), log0[:n0], model, names, names, folder_of)
         finally:
             cb.release.set()
             if orig_thread is not None:
